@@ -69,6 +69,7 @@ PROPS = {
                       "every code value the encoder can emit (255 codes x 2 regular codecs evaluated). Not the byte-level round trip.",
         "level_note": "trusts clang constant folding of the macro-expanded formulas; pattern anchors: `++code == E`, conditional `c + K`, `_ctx & 0xff`",
         "rules": [
+            {"run": rules_path.run_cursorpair, "floor": 2, "use_anchor_files": True},
             {"run": rules_path.run_undoset, "floor": 2, "use_anchor_files": True},
             {"run": rules_path.run_steppair, "floor": 1, "use_anchor_files": True},
             {"run": rules_codec.run, "floor": 20},
@@ -141,6 +142,7 @@ PROPS = {
         "level_text": "Four structural necessary conditions of 'each request answered at most once, to the right requester', each enumerated over all functions of the anchor files.",
         "level_note": "consumer types are inferred from every convert(x, K, &p) call in the program; first-member embedding counts as the same interface",
         "rules": [
+            {"run": rules_reply.run_formatargs, "floor": 100, "scope": "anchors"},
             {"run": rules_reply.run_flexcopy, "floor": 1, "use_anchor_files": True},
             {"run": rules_reply.run_outparam_callee, "floor": 1, "use_anchor_files": True},
             {"run": rules_reply.run_idwidth, "floor": 8},
@@ -179,6 +181,7 @@ PROPS = {
         "level_text": "Termination and 'source cursor stays inside the caller's fragment list' for every decoder loop; nothing about the decoded bytes.",
         "level_note": "the destination cursor (dvec) has no separate count: its bound is the relational invariant stated in the source comment and is not decided",
         "rules": [
+            {"run": rules_path.run_cursorpair, "floor": 2, "use_anchor_files": True},
             {"run": rules_path.run_cursorsync, "floor": 6, "use_anchor_files": True},
             {"run": rules_path.run_progress, "floor": 15, "use_anchor_files": True},
             {"run": rules_path.run_cursor, "floor": 6, "use_anchor_files": True},
@@ -379,6 +382,7 @@ PROPS = {
                       "afterwards') for every store in the dispatcher sources, on all paths.",
         "level_note": "one-shot reply handlers in the stream/connection wait queues (invoked with the reply, then cleared) are outside the anchored files and reported as unattributed",
         "rules": [
+            {"run": rules_reply.run_formatargs, "floor": 100, "scope": "anchors"},
             {"run": rules_event.run_finiall, "floor": 1},
             {"run": rules_event.run_finaliser, "floor": 10, "scope": "anchors"},
             {"run": rules_reply.run_idwidth, "floor": 8},
